@@ -95,7 +95,29 @@ def gen_case(tape, tier):
         # a function with a generated axis returns a masked array of its own (some entries masked); every consumer takes
         # the output element by element: whatever the storage, it is handed the data
         tape.pick(cands, "masked-fn")["masked_out"] = True
+    if _has_elementwise_reader(w) and tape.coin(0.25, "aim-shared-storage"):
+        # several tasks read elements of the same stored file: aim the case at the configuration in which they share the
+        # storage object (one thread pool, file storage) and every source line of the storage modules is a yield point
+        cfg.update(executor={"kind": "single", "ex": {"mode": "thread", "workers": 2 + tape.choose(3, "workers"), "start": "any",
+                                                      "pickle_at": "start"}},
+                   storage="file_array", run_folder=True, line_preempt=True, preempt=tape.pick([0.6, 0.9], "preempt"))
     return case
+
+
+def _has_elementwise_reader(w):
+    from sim.interp import _parse
+
+    for fd in w["functions"]:
+        if not (fd.get("out_shape") and fd.get("mapspec")):
+            continue
+        rank = len(_parse(fd["mapspec"])[1])
+        for o in fd["outputs"]:
+            for g in w["functions"]:
+                if o in g["params"] and g.get("mapspec") and not g["mapspec"].strip().startswith("..."):
+                    spec = _parse(g["mapspec"])[0].get(o)
+                    if spec is not None and ":" not in spec and len(spec) == rank:
+                        return True
+    return False
 
 
 def _only_elementwise_consumers(w, fd):
@@ -394,6 +416,8 @@ def _run_case(case, exec_seed, exec_tape, stack):
     pr = dict(sim.probes)
     if len(runs) > 1:
         pr["second_run_on_same_pipeline"] = 1
+    if cfg.get("line_preempt") and _has_elementwise_reader(w):
+        pr["thread_tasks_read_elements_of_one_file_with_line_preemption"] = 1
     if any(fd.get("masked_out") for fd in w["functions"]):
         pr["masked_values_along_generated_axis"] = 1
     pr[f"entry:{cfg['entry']}"] = 1
